@@ -57,6 +57,7 @@ type world struct {
 	probes  []*probe
 	onPoll  func()
 	rel     []bool
+	rebuilt int // maps rebuilt so far (MapsRecreated counter)
 	metrics func() *cache.Metrics
 	// property bookkeeping (independent of the model)
 	produced map[[2]int]map[int]bool // (cache,key) -> values a loader returned
@@ -73,7 +74,7 @@ func (w *world) entrySize() uint64 {
 }
 
 func (w *world) addCache() {
-	var m *cache.Metrics
+	m := cache.VerifMetrics(nil, nil, func() { w.rebuilt++ })
 	if w.metrics != nil {
 		m = w.metrics()
 	}
@@ -240,13 +241,14 @@ func (w *world) doOp(op string) (string, error) {
 		return fmt.Sprintf("r%s.%d", vh.B(b), sz), nil
 	case 'c':
 		st := &cache.CleanStat{}
+		before := w.rebuilt
 		if !w.cl.Cleanup(st) {
 			return "c0.0.0", nil
 		}
 		if w.limit > 0 && w.cl.VerifGetSize() > w.limit {
 			w.violate("cache/cleaner.go:Cleanup", "size-over-limit-after-cleanup", fmt.Sprintf("getSize %d > limit %d after a Cleanup pass without concurrent lookups", w.cl.VerifGetSize(), w.limit))
 		}
-		return fmt.Sprintf("c1.%d.%d.%d.%d", st.SizeToClean, st.GensCleaned, st.BytesReleased, st.BucketsCleaned), nil
+		return fmt.Sprintf("c1.%d.%d.%d.%d.%d", st.SizeToClean, st.GensCleaned, st.BytesReleased, st.BucketsCleaned, w.rebuilt-before), nil
 	case 'z':
 		return fmt.Sprintf("n%d", w.cl.CleanEmptyGenerations()), nil
 	case 'b':
@@ -332,7 +334,7 @@ func (w *world) state() string {
 			}
 			body = append(body, fmt.Sprintf("%d:%d:%s:%s", e.Key, e.Size, w.genPos(e.Gen), st))
 		}
-		cs = append(cs, fmt.Sprintf("%d/%s/%s/%s", i, vh.B(w.rel[i]), w.genPos(c.VerifCurrentGeneration()), vh.JoinStrs(body, ",")))
+		cs = append(cs, fmt.Sprintf("%d/%s/%s/%d/%s", i, vh.B(w.rel[i]), w.genPos(c.VerifCurrentGeneration()), c.VerifMaxPayloadSize(), vh.JoinStrs(body, ",")))
 	}
 	return fmt.Sprintf("size=%d live=%d buckets=%s gens=%s caches=%s", int64(w.cl.VerifGetSize()), w.liveSum(), vh.JoinInts(bs), vh.JoinInts(gens), vh.JoinStrs(cs, "|"))
 }
@@ -620,6 +622,22 @@ func main() {
 		for _, sc := range []string{"n;B;g1.1.5.10", "n;n;x0;B;g2.1.5.10;b", "n;n;n;x0;x2;B;x1;B;r;g3.1.1.600;g4.1.2.600;c", "B;g0.1.1.1", "n;x0;B;B;g1.1.1.1;g2.1.1.1"} {
 			addSeq(1000, strings.Split(sc, ";"), "rb-concurrent-add")
 		}
+		// 2c. histories that reach recreatePayload: N entries, rotate, k more, Cleanup (limit 3000 keeps the k new ones),
+		//     around both thresholds (N = 199/200/201, k*10 vs N+k), then more calls and a second pass
+		for _, N := range []int{199, 200, 201, 230} {
+			for _, k := range []int{0, 1, 19, 20, 21, 22, 23, 24, 25, 26, 30} {
+				ops := []string{"n"}
+				for i := 0; i < N; i++ {
+					ops = append(ops, fmt.Sprintf("g0.%d.%d.1", i, i))
+				}
+				ops = append(ops, "r")
+				for j := 0; j < k; j++ {
+					ops = append(ops, fmt.Sprintf("g0.%d.%d.1", 1000+j, j))
+				}
+				ops = append(ops, "c", "g0.1000.7.1", "g0.5.8.1", "e0.6", "r", "g0.7.9.2900", "c", "z")
+				addSeq(3000, ops, "rebuild")
+			}
+		}
 		// 3. all op sequences over a small alphabet (after creating two caches)
 		alphabet := []string{"g0.1.1.300", "g0.2.2.300", "g1.1.3.300", "e0.1", "p1.1", "x0", "x1", "r", "c", "z", "b", "n"}
 		maxLen := o.Pick(4, 5)
@@ -658,6 +676,25 @@ func main() {
 			"n;H0.0.1;G1.0.2;F1.9.2000;r;C;G2.0.1;E0;F2.7.100", // failed load after its entry was evicted and re-created
 		} {
 			addTrace(1000, strings.Split(sc, ";"), "directed")
+		}
+		// rebuild of the map (>= 200 entries, then >= 90% evicted) while a load of a non-stale generation is parked
+		// across the Cleanup, with and without a waiter on it; around the 90% boundary
+		for _, k := range []int{0, 5, 22, 23, 24} {
+			for _, waiter := range []bool{false, true} {
+				acts := []string{"n"}
+				for i := 0; i < 230; i++ {
+					acts = append(acts, fmt.Sprintf("G1.0.%d", i), fmt.Sprintf("F1.%d.1", i))
+				}
+				acts = append(acts, "r", "G0.0.5000")
+				if waiter {
+					acts = append(acts, "H2.0.5000")
+				}
+				for j := 0; j < k; j++ {
+					acts = append(acts, fmt.Sprintf("G1.0.%d", 1000+j), fmt.Sprintf("F1.%d.1", j))
+				}
+				acts = append(acts, "C", "G3.0.5000", "F0.77.10", "G1.0.5000", "C", "z")
+				addTrace(3000, acts, "rebuild")
+			}
 		}
 		nTr := o.Pick(600, 12000)
 		for i := 0; i < nTr; i++ {
